@@ -96,12 +96,12 @@ theorem sessHandle_ended (cfg : Config) (ss : Session) (c : Nat) (r : Request)
     · simp only [hm] at h; cases h
   · simp only [hne] at h; cases h
 
-theorem runInSession_ids (cfg : Config) {srv : Server} {c id : Nat} (ss : Session) (r : Request)
+theorem runInSessionWith_ids (cfg : Config) {srv : Server} {c id : Nat} (ss : Session) (r : Request)
     (hid : id ∈ sessIds srv) :
-    id ∈ sessIds (runInSession cfg srv c ss r).1 ∨
-      (id = ss.id ∧ r.method = .teardown ∧ (runInSession cfg srv c ss r).2.status = 200 ∧
-        (runInSession cfg srv c ss r).2.err ≠ .fail) := by
-  unfold runInSession
+    id ∈ sessIds (runInSessionWith cfg srv c ss r).1 ∨
+      (id = ss.id ∧ r.method = .teardown ∧ (runInSessionWith cfg srv c ss r).2.status = 200 ∧
+        (runInSessionWith cfg srv c ss r).2.err ≠ .fail) := by
+  unfold runInSessionWith
   dsimp only
   split
   · rename_i hend
@@ -114,6 +114,13 @@ theorem runInSession_ids (cfg : Config) {srv : Server} {c id : Nat} (ss : Sessio
   · left
     show id ∈ sessIds (putSession srv _)
     rw [putSession_ids]; exact hid
+
+theorem runInSession_ids (cfg : Config) {srv : Server} {c id : Nat} (ss : Session) (r : Request)
+    (hid : id ∈ sessIds srv) :
+    id ∈ sessIds (runInSession cfg srv c ss r).1 ∨
+      (id = ss.id ∧ r.method = .teardown ∧ (runInSession cfg srv c ss r).2.status = 200 ∧
+        (runInSession cfg srv c ss r).2.err ≠ .fail) :=
+  runInSessionWith_ids cfg ss { r with portBusy := portBusy cfg srv ss r } hid
 
 theorem inSession_ids (cfg : Config) {srv : Server} {id : Nat} (cn : Conn) (r : Request) (create : Bool)
     (hid : id ∈ sessIds srv) :
